@@ -114,7 +114,7 @@ def record(items, widths, mode=1, fuel=200000, max_events=6000):
     cases = []
     for it in items:
         if "src" not in it:
-            it["src"], _ = render(it["prog"])
+            it["src"], it["ap"] = render(it["prog"])
         cases.append({"id": it["id"], "src": it["src"], "trace": mode, "funcs": True, "fuel": fuel})
     res = core.run_cases(cases)
     recs = []
